@@ -84,6 +84,7 @@ static void run_expert(const job *J, int wsfill, jout *o)
     if (J->use_ws) { size_t G = generous_lwork(P, n, J->A.nnz); work = malloc(G + 16); memset(work, wsfill, G + 16); D.work = work; D.lwork = (int_t)G; }
     superlu_options_t opt = J->opt;
     if (opt.ColPerm == MY_PERMC) memcpy(D.perm_c, J->permc_in, sizeof(int) * (size_t)n);
+    if (!ilu && opt.IterRefine != NOREFINE && nrhs > 0 && wsfill) { StatInit(&D.stat); D.stat_on = 1; D.stat.RefineSteps = 1 + wsfill % 9; }   /* stale step count of an earlier call: output only */
     xdrv_call(&D, &opt);
     int_t info = D.info; o->info = (long long)info; h_ll(o, 0, info); HB(0, D.equed, 1);
     int full = info >= 0 && (info == 0 || info == n + 1 || (ilu && info <= n));
@@ -128,6 +129,8 @@ static void run_trf(const job *J, int wsfill, jout *o)
             ld rpg = P->PivotGrowth(n, &R.A, R.perm_c, &R.L, &R.U); { double g = (double)rpg; HB(6, &g, sizeof g); }
             if (nrhs > 0) {
                 char eq[2] = "N"; int info4 = -999;
+                /* a statistics object that has been through earlier refinements (one StatInit per run is the common use): its old step count is output only */
+                if (wsfill) R.stat.RefineSteps = 1 + wsfill % 9;
                 P->gsrfs(J->trans, &R.A, &R.L, &R.U, R.perm_c, R.perm_r, eq, NULL, NULL, &SB, &SX, fe, be, &R.stat, &info4);
                 h_ll(o, 0, info4); h_dense(o, 4, P, &SX); h_dense(o, 4, P, &SB); HB(6, fe, P->rsz * (size_t)nrhs); HB(6, be, P->rsz * (size_t)nrhs);
             }
